@@ -199,6 +199,10 @@ def showValue (sel : Selected) (ra rb : Bytes) : String :=
     else if f == ascii "owner" then s!"s:{toHex rb}"
     else "s:x"
 
+/-- expected decoding of a streamed body: framing (newline-delimited values / SSE records) and the values -/
+def showItems (sel : Selected) (cnt : Nat) (sse : Bool) (ra rb : Bytes) : String :=
+  (if sse then "sse|" else "nl|") ++ ";".intercalate (List.replicate cnt (showValue sel ra rb))
+
 def handleE2E (i o : List String) : String :=
   match i, o with
   | [rpc, inj, err, gone, _ct, acc, body, rbp, tmo, n, resp, md],
@@ -274,7 +278,7 @@ def handleE2E (i o : List String) : String :=
       let wantXcto : Option (List Bytes) := if r.nosniff then some [ascii "nosniff"] else none
       let bodyOk : Bool := match r.body with
         | .bytes b => obs.body == b
-        | .items sel cnt _ => obs.dm == ";".intercalate (List.replicate cnt (showValue sel ra rb))
+        | .items sel cnt sse => obs.dm == showItems sel cnt sse ra rb
       let gone499 := r.origin.isSome && r.status == httpStatusCanceled && r.ct.isNone
       let sameOut := obs.status == r.status && obs.ct == wantCt && obs.xcto == wantXcto && bodyOk
         && sameMD obs.hdr r.hdrs && sameMD obs.trl r.trls
@@ -325,8 +329,8 @@ def handleE2E (i o : List String) : String :=
                 | some sel => if obs.ct == some [negotiated] && obs.dm == showValue sel ra rb then none else some "success-body"
                 | none => none
               else none
-            | .items sel cnt _ =>
-              if obs.ct == some [negotiated] && obs.dm == ";".intercalate (List.replicate cnt (showValue sel ra rb)) then none else some "stream-body"
+            | .items sel cnt sse =>
+              if obs.ct == some [negotiated] && obs.dm == showItems sel cnt sse ra rb then none else some "stream-body"
       -- 415: an unsupported Content-Type (no line names a registered type) is answered with 415
       let spec415 : Option String :=
         if sc.inj != .router && sc.inj != .bind && !env.pm.isEmpty && (negotiatedReq registry env.pm).isNone && obs.status != 415
